@@ -12,7 +12,7 @@ git -C /repo worktree add -q --detach $WT HEAD || exit 2
 cleanup() { git -C /repo worktree remove --force $WT 2>/dev/null; rm -rf $WT; }
 trap cleanup EXIT
 DEMO_REL=$(cat $SRC/demo_path.txt | head -1 | tr -d ' \n')
-DEMO_FILE=$(ls $SRC/*_test.go | head -1)
+DEMO_FILE=$SRC/$(basename $DEMO_REL); [ -f "$DEMO_FILE" ] || DEMO_FILE=$(ls $SRC/*_test.go | head -1)
 DEMO_CMD=$(python3 -c "import json;print(json.load(open('$SRC/meta.json'))['demo_cmd'])")
 cd $WT
 mkdir -p $(dirname $DEMO_REL); cp $DEMO_FILE $DEMO_REL
